@@ -236,13 +236,28 @@ congruence<Number>::operator&(const congruence<Number> &o) const {
   } else {
     // pre: a and o.a != 0
     Number x = gcd(m_a, o.m_a);
-    if (m_b % x == (o.m_b % x)) {
-      // the part max(b,o.b) needs to be verified. What we really
-      // want is to find b'' such that
-      // 1) b'' % lcm(a,a') == b  % lcm(a,a'), and
-      // 2) b'' % lcm(a,a') == b' % lcm(a,a').
-      // An algorithm for that is provided in Granger'89.
-      return congruence<Number>(lcm(m_a, o.m_a), max(m_b, o.m_b));
+    if ((m_b - o.m_b) % x == 0) {
+      // Find b'' such that b'' = b (mod a) and b'' = b' (mod a')
+      // (Chinese remainder theorem): b'' = b + |a|*k where
+      // (|a|/x)*k = (b'-b)/x (mod |a'|/x).
+      Number a1 = abs(m_a) / x;
+      Number a2 = abs(o.m_a) / x;
+      Number k(0);
+      if (a2 != 1) {
+        // modular inverse of a1 modulo a2 (extended Euclid)
+        Number r0 = a2, r1 = a1 % a2, t0(0), t1(1);
+        while (r1 != 0) {
+          Number q = r0 / r1;
+          Number r2 = r0 - q * r1;
+          r0 = r1;
+          r1 = r2;
+          Number t2 = t0 - q * t1;
+          t0 = t1;
+          t1 = t2;
+        }
+        k = (((o.m_b - m_b) / x) * t0) % a2;
+      }
+      return congruence<Number>(lcm(m_a, o.m_a), m_b + abs(m_a) * k);
     } else {
       return congruence<Number>::bottom();
     }
